@@ -11,24 +11,36 @@ using srv_t = bluetoe::server< bluetoe::no_gap_service_for_gatt_servers, bluetoe
     bluetoe::characteristic< bluetoe::characteristic_uuid16< 0xaaa1 >, bluetoe::bind_characteristic_value< std::uint8_t, &va >, bluetoe::indicate >,
     bluetoe::characteristic< bluetoe::characteristic_uuid16< 0xaaa2 >, bluetoe::bind_characteristic_value< std::uint8_t, &vb >, bluetoe::indicate > > >;
 using ll_t = unconnected_base_t< srv_t, test::radio, bluetoe::link_layer::buffer_sizes< 200u, 200u > >;
-int main()
+static std::uint8_t read_a_fails( std::size_t, std::uint8_t*, std::size_t& ) { return bluetoe::error_codes::unlikely_error; }
+using srv2_t = bluetoe::server< bluetoe::no_gap_service_for_gatt_servers, bluetoe::service< bluetoe::service_uuid16< 0x1111 >,
+    bluetoe::characteristic< bluetoe::characteristic_uuid16< 0xaaa1 >, bluetoe::free_read_handler< &read_a_fails >, bluetoe::indicate >,
+    bluetoe::characteristic< bluetoe::characteristic_uuid16< 0xaaa2 >, bluetoe::bind_characteristic_value< std::uint8_t, &vb >, bluetoe::indicate > > >;
+using ll2_t = unconnected_base_t< srv2_t, test::radio, bluetoe::link_layer::buffer_sizes< 200u, 200u > >;
+template < class LL, class A >
+static int play( bool subscribe_a, A indicate_a, const char* what )
 {
-    ll_t ll;
+    LL ll;
     ll.respond_to( 37, valid_connection_request_pdu );
     ll.ll_empty_pdus( 2 );
-    ll.ll_data_pdu( { 0x05, 0x00, 0x04, 0x00, 0x12, 0x07, 0x00, 0x02, 0x00 } );   // Write Request: CCCD of b := indications
+    if ( subscribe_a ) { ll.ll_data_pdu( { 0x05, 0x00, 0x04, 0x00, 0x12, 0x04, 0x00, 0x02, 0x00 } ); ll.ll_empty_pdus( 2 ); }   // Write Request: CCCD of a := indications
+    ll.ll_data_pdu( { 0x05, 0x00, 0x04, 0x00, 0x12, 0x07, 0x00, 0x02, 0x00 } );                                                   // Write Request: CCCD of b := indications
     ll.ll_empty_pdus( 2 );
-    ll.ll_function_call( [&]{ ll.indicate( va ); } );                              // the client has not subscribed to a
+    ll.ll_function_call( [&]{ indicate_a( ll ); } );
     ll.ll_empty_pdus( 3 );
-    ll.ll_function_call( [&]{ ll.indicate( vb ); } );                              // ... but to b
+    ll.ll_function_call( [&]{ ll.indicate( vb ); } );
     ll.ll_empty_pdus( 6 );
     ll.run( 4 );
     bool b_indicated = false;
-    for ( const auto& ev : ll.connection_events() ) for ( const auto& pdu : ev.transmitted_data ) {
+    for ( const auto& ev : ll.connection_events() ) for ( const auto& pdu : ev.transmitted_data )
         if ( pdu.size() >= 9 && ( pdu[ 0 ] & 3 ) == 2 && pdu[ 6 ] == 0x1d && pdu[ 7 ] == 0x06 ) b_indicated = true;
-    }
-    if ( !b_indicated ) { std::printf( "REPRODUCED: client subscribed to b only; indicate( a ), then indicate( b ): b's indication is never sent (the unsent indication of a is waited for for ever)\n" ); return 1; }
-    std::printf( "not reproduced\n" );
+    if ( !b_indicated ) { std::printf( "REPRODUCED: %s; indicate( a ), then indicate( b ): b's indication is never sent (the unsent indication of a is waited for for ever)\n", what ); return 1; }
     return 0;
+}
+int main()
+{
+    int rc = play< ll_t >( false, []( ll_t& ll ){ ll.indicate( va ); }, "client subscribed to b only" );
+    rc |= play< ll2_t >( true, []( ll2_t& ll ){ ll.template indicate< bluetoe::characteristic_uuid16< 0xaaa1 > >(); }, "client subscribed to a and b, a's read handler fails" );
+    if ( !rc ) std::printf( "not reproduced\n" );
+    return rc;
 }
 bool init_unit_test() { return true; }
